@@ -13,7 +13,7 @@ import "errors"
 // whose index ranges are strictly increasing, starts with index 0 and ends
 // with index count-1; no run-time panic (empty bucket / empty current).
 //
-//verif:harness solver=cvc5 timeout=120000 param.T=3..6 thorough.param.T=3..8 param.E=4 thorough.param.E=5 thorough.deadline=3000 unwind=64 split=-1
+//verif:harness solver=cvc5 timeout=120000 param.T=3..6 thorough.param.T=3..6 param.E=4 thorough.param.E=5 thorough.deadline=3000 unwind=64 split=-1
 func verif_harness_C17_downsample() {
 	T := verif_param("T")
 	cmax := 1
